@@ -153,7 +153,7 @@ fn getvalues_case<const N: usize>() {
     std::mem::forget(out);
 }
 
-// @harness name=c04_getvalues_state_2 props=C04,C03 tier=quick timeout=1200 rmbody=ioerr,nogrow mem=24 est=11 dead=3
+// @harness name=c04_getvalues_state_2 props=C04,C03 tier=quick timeout=2400 rmbody=ioerr,nogrow mem=24 est=11 dead=3
 // @bound GetValuesState<HeaderState>: any accumulated set, payload_rem 0..65535, padding_rem 0..255, input of exactly 2 symbolic bytes (shorter bodies via payload_rem); parse_name / write_response replaced by the E5 models; E8 (io::Error drop = no-op)
 // @functions request::GetValuesState::drive, NVIter<&[u8]>::next, parser::parse_nv_var
 #[kani::proof]
@@ -162,7 +162,7 @@ fn getvalues_case<const N: usize>() {
 #[kani::stub(fcgi::ProtocolVariables::write_response, crate::verif_kani::write_response_model)]
 fn c04_getvalues_state_2() { getvalues_case::<2>(); }
 
-// @harness name=c04_getvalues_state_3 props=C04,C03 tier=quick timeout=1200 rmbody=ioerr,nogrow mem=24 est=11 dead=1
+// @harness name=c04_getvalues_state_3 props=C04,C03 tier=quick timeout=2400 rmbody=ioerr,nogrow mem=24 est=11 dead=1
 // @bound GetValuesState<HeaderState>: any accumulated set, payload_rem 0..65535, padding_rem 0..255, input of exactly 3 symbolic bytes (shorter bodies via payload_rem); parse_name / write_response replaced by the E5 models; E8 (io::Error drop = no-op)
 // @functions request::GetValuesState::drive, NVIter<&[u8]>::next, parser::parse_nv_var
 #[kani::proof]
@@ -171,7 +171,7 @@ fn c04_getvalues_state_2() { getvalues_case::<2>(); }
 #[kani::stub(fcgi::ProtocolVariables::write_response, crate::verif_kani::write_response_model)]
 fn c04_getvalues_state_3() { getvalues_case::<3>(); }
 
-// @harness name=c04_getvalues_state_4 props=C04,C03 tier=quick timeout=1200 rmbody=ioerr,nogrow mem=24 est=11 dead=1
+// @harness name=c04_getvalues_state_4 props=C04,C03 tier=quick timeout=2400 rmbody=ioerr,nogrow mem=24 est=11 dead=1
 // @bound GetValuesState<HeaderState>: any accumulated set, payload_rem 0..65535, padding_rem 0..255, input of exactly 4 symbolic bytes (shorter bodies via payload_rem); parse_name / write_response replaced by the E5 models; E8 (io::Error drop = no-op)
 // @functions request::GetValuesState::drive, NVIter<&[u8]>::next, parser::parse_nv_var
 #[kani::proof]
@@ -198,7 +198,7 @@ fn is_rec16(out: &[u8], at: usize, rtype: u8, id: u16, body0: u8, body4: u8) -> 
         && out[at + 12] == body4 && out[at + 13] == 0 && out[at + 14] == 0 && out[at + 15] == 0
 }
 
-// @harness name=c01_header_state props=C01,C03,C04,C11 tier=quick timeout=900
+// @harness name=c01_header_state props=C01,C03,C04,C11 tier=quick timeout=2400
 // @bound HeaderState: input of 0..24 symbolic bytes (every header, every BeginRequest body), 1 byte of pending output
 // @functions request::HeaderState::drive, try_head!, to_array!, RecordHeader::from_bytes, BeginRequest::from_bytes, Request::new
 #[kani::proof]
@@ -367,7 +367,7 @@ fn drive_any<'a>(_st: State, data: &'a mut [u8], _out: &mut Vec<u8>, _config: &C
     (&mut data[k..], st)
 }
 
-// @harness name=c06_stuck_iff_full props=C06,C03,C05 tier=quick timeout=900
+// @harness name=c06_stuck_iff_full props=C06,C03,C05 tier=quick timeout=2400
 // @bound Parser::parse glue for EVERY outcome of State::drive (drive replaced by a nondeterministic stub: any consumed prefix, any non-final/final state); 24-byte buffer, every input_len and new_input
 // @functions request::Parser::parse, request::Parser::move_input, request::Parser::input_buffer
 #[kani::proof]
@@ -640,7 +640,7 @@ fn parse_stream_any(_s: &mut ParamsStateInner, data: &mut [u8], rec_end: bool) -
     r
 }
 
-// @harness name=c01_params_framing props=C01,C03,C04,C11 tier=quick timeout=900
+// @harness name=c01_params_framing props=C01,C03,C04,C11 tier=quick timeout=2400
 // @bound ParamsState::drive for every payload_rem / padding_rem, input 0..24 symbolic bytes (every following header), parse_stream replaced by a contract stub (checked separately); own request id symbolic
 // @functions request::ParamsState::drive, try_head!, ParamsState::into_skip, StateBuilder for ParamsStateInner / Request
 #[kani::proof]
